@@ -110,7 +110,7 @@ def check_pair(sw, c, la, a, lb, b):
 
 
 def sweep_objects(sw, r, tier):
-    rounds = 12 if tier == "quick" else 120
+    rounds = 20 if tier == "quick" else 150
     for c in CLASSES:
         for _ in range(rounds):
             pool = []
@@ -144,11 +144,18 @@ def sweep_objects(sw, r, tier):
 
 def member_grid(kind, r):
     vs = neighbours(kind, r)[: r.randint(2, 3)]
-    return [gen_fmt.make_obj(kind, v) for v in vs]
+    objs = [gen_fmt.make_obj(kind, v) for v in vs]
+    # ascending and without duplicates, so that the last / first index of every grid is the dominating / dominated value
+    objs.sort(key=lambda o: o.value)
+    out = []
+    for o in objs:
+        if not out or out[-1].value != o.value:
+            out.append(o)
+    return out
 
 
 def sweep_groups(sw, r, tier):
-    rounds = 10 if tier == "quick" else 80
+    rounds = 30 if tier == "quick" else 150
     for _ in range(rounds):
         decl = corr_fmt.group_decl(r, r.randint(2, 3))
         G = make_group({nm: corr_fmt.KINDS[k] for nm, k in decl})
